@@ -24,7 +24,7 @@ def healthy(run, allow_error=False):
 
 
 def check_run(scn, run, drv, res, *, monitors_on=(), corr=("sim", "ticker"), case_extra=None, expect_failures=False,
-              with_real=False):
+              with_real=False, with_costs=False):
     """correspondence + monitors for one run. Returns number of findings."""
     case = {"scenario": scn, **(case_extra or {})}
     n = 0
@@ -45,8 +45,15 @@ def check_run(scn, run, drv, res, *, monitors_on=(), corr=("sim", "ticker"), cas
     reqs = []
     want_sim = any(c in corr for c in ("sim", "ticks", "inputs"))
     if want_sim:
-        reqs.append(model.sim_request(scn, run["trace"], n_ticks=max(0, len([e for e in run["trace"].of("t-done") if e["tid"] == monitors.master_tid(run)]) - 1),
-                                      extra={"start_real": run["info"]["start_real"]}))
+        rq = model.sim_request(scn, run["trace"], n_ticks=max(0, len([e for e in run["trace"].of("t-done") if e["tid"] == monitors.master_tid(run)]) - 1),
+                               extra={"start_real": run["info"]["start_real"]})
+        if with_costs:
+            # the master loop WITH processing costs (Core/SimCost, Props/C12Cost): the real time each master tick took
+            mt = monitors.master_tid(run)
+            calls = [e for e in run["trace"].of("t-call") if e["tid"] == mt]
+            dones = [e for e in run["trace"].of("t-done") if e["tid"] == mt]
+            rq["costs"] = [d["real"] - c["real"] for c, d in zip(calls, dones)] + [0, 0, 0]
+        reqs.append(rq)
     treqs, texp = [], []
     if "ticker" in corr:
         treqs, texp, _ = model.ticker_requests(run["trace"])
